@@ -143,6 +143,12 @@ def _run_once(module, cfg=None, workers=16, simulate=None, depth=None, seed=None
                         if last_progress[1] >= 2:
                             # three progress reports (one per minute) with the same number of generated states and a non-empty queue:
                             # the workers are spinning (seen with several workers sharing values: TLC normalises values lazily, in place)
+                            try:        # diagnostic only
+                                dump = subprocess.run(['jstack', str(proc.pid)], capture_output=True, text=True, timeout=30).stdout
+                                with open(os.path.join(tempfile.gettempdir(), 'tlc_stuck_%d.txt' % proc.pid), 'w') as f:
+                                    f.write(dump)
+                            except Exception:
+                                pass
                             proc.kill()
                             raise TLCStuck('TLC made no progress for %d reports (%s states generated, %s on queue): %s' % (
                                 last_progress[1] + 1, cur[0], cur[1], ' '.join(cmd)))
